@@ -45,8 +45,9 @@ var (
 	secret32 = "0123456789abcdefghijklmnopqrstuv"
 	secrets  = []string{"", "s", secret32}
 	// long user ids and realms: "username:realm:password" of 100 .. 500 bytes (USERNAME may be 513 bytes, REALM 763)
-	users  = []string{"", "u", "a:b", "üñí", strings.Repeat("u", 100), strings.Repeat("long-user-id/", 30)}
-	realms = []string{"", "r", "pion.ly", strings.Repeat("r", 127), strings.Repeat("realm.example.", 20)}
+	users = []string{"", "u", "a:b", "üñí", strings.Repeat("u", 100), strings.Repeat("long-user-id/", 30)}
+	// a realm is compared and hashed as it stands (letter case included)
+	realms = []string{"", "R.Example", "pion.ly", strings.Repeat("r", 127), strings.Repeat("realm.example.", 20)}
 	// the required set {-10s,-1s,0,1s,59s,1h,100d} plus sub-second durations
 	// (the stamp is floor(now+duration)) and one that carries the stamp past 2^31.
 	durs = []time.Duration{-10 * time.Second, -time.Second, -time.Millisecond, 0, time.Millisecond, time.Second,
